@@ -2,10 +2,10 @@
 
 Correspondence: whole operation sequences are run on the real `emd.cycles.Cycles` (cache on AND
 off) and on the Lean state machine `Container.step`; after the constructor and after every
-operation the complete observable state is compared: metric store (names in order, lengths,
-values, NaN <-> nan), subset / chain vectors, stored conditions, `get_matching_cycles(probe)`,
+operation the complete observable state is compared: metric store (as a mapping name -> values: lengths,
+values, NaN <-> nan; the order of the names is not compared), subset / chain vectors, stored conditions, `get_matching_cycles(probe)`,
 and the three `get_metric_dataframe` modes (pandas builds the table; row count, column names and
-cells are compared).  Python's `float()` is an oracle: for every condition string the harness
+cells are compared, columns matched by name).  Python's `float()` is an oracle: for every condition string the harness
 sends `float(cond[i:])` for every suffix; the model decides which suffix is the literal.
 
 Instance check (plain Python, independent of emd and of the model): one entry per cycle; a
@@ -321,13 +321,15 @@ def _placeholder_leq(got, exp, sub):
 def _tbl_diff(a, b):
     if ('err' in a) or ('err' in b):
         return None if a == b else 'table %s vs %s' % (a.get('err', 'ok'), b.get('err', 'ok'))
-    if a['cols'] != b['cols']:
+    # columns are matched by NAME: their order (= the iteration order of the metrics dict) is not fixed by the property
+    if sorted(a['cols']) != sorted(b['cols']) or len(set(a['cols'])) != len(a['cols']):
         return 'columns %s vs %s' % (a['cols'], b['cols'])
     if len(a['rows']) != len(b['rows']):
         return 'row count %d vs %d' % (len(a['rows']), len(b['rows']))
+    perm = [b['cols'].index(c) for c in a['cols']]
     for i, (x, y) in enumerate(zip(a['rows'], b['rows'])):
-        if not _leq(x, y):
-            return 'row %d: %s vs %s' % (i, x, y)
+        if len(x) != len(perm) or len(y) != len(perm) or not _leq(x, [y[j] for j in perm]):
+            return 'row %d: %s vs %s (columns %s vs %s)' % (i, x, y, a['cols'], b['cols'])
     return None
 
 
@@ -337,12 +339,15 @@ def step_diff(a, b):
         return 'status', '%s vs %s' % (a['st'], b['st'])
     if a['K'] != b['K']:
         return 'ncycles', '%s vs %s' % (a['K'], b['K'])
+    # the metric store is compared as a MAPPING name -> values: the order in which an operation stores its metrics is
+    # not fixed by the property (harmless rewrite 2 of round 2 stored `duration` first)
     na, nb = [m[0] for m in a['metrics']], [m[0] for m in b['metrics']]
-    if na != nb:
+    if sorted(na) != sorted(nb) or len(set(na)) != len(na):
         return 'metric-names', '%s vs %s' % (na, nb)
-    for (n1, v1), (_, v2) in zip(a['metrics'], b['metrics']):
-        if not _leq(v1, v2):
-            return 'metric:' + n1, '%s vs %s' % (v1[:12], v2[:12])
+    db = dict((n, v) for n, v in b['metrics'])
+    for n1, v1 in a['metrics']:
+        if not _leq(v1, db[n1]):
+            return 'metric:' + n1, '%s vs %s' % (v1[:12], db[n1][:12])
     if a['sel'] != b['sel']:
         return 'selection', '%s vs %s' % (a['sel'], b['sel'])
     ra, rb = a.get('ret'), b.get('ret')
@@ -702,7 +707,7 @@ def check_trace(case, tr, tag):
                 fail('matching-not-conjunction', i, 'conditions %s: got %s expected %s' % (op['conds'], st['ret'], w))
         # ---- a failed operation leaves no trace in the metric store --------------------------------
         if op and st['st'] != 'ok' and prev is not None:
-            if [m[0] for m in st['metrics']] != [m[0] for m in prev['metrics']] and op['op'] not in ('timings', 'chain_timings'):
+            if sorted(m[0] for m in st['metrics']) != sorted(m[0] for m in prev['metrics']) and op['op'] not in ('timings', 'chain_timings'):
                 # atomicity of a failing operation is not stated by the property: mechanism-level
                 fail('failed-operation-changed-metrics', i, '%s raised %s' % (op['op'], st['st']), literal=False)
     return fs
@@ -742,7 +747,7 @@ class _Base(Stream):
                 try:
                     found = check_trace(case, out[key]['trace'], 'cache-' + key)
                 except Exception as e:  # noqa  (an oracle tripping over an ill-formed state is itself a failure)
-                    found = {'instance-check-crashed': Failure('instance-check-crashed', repr(e))}
+                    found = {'instance-check-crashed': Failure('instance-check-crashed', repr(e), literal=False)}
                 for k, f in found.items():
                     fs.setdefault(k, f)
         d = trace_diff(out['on'], out['off'])
@@ -1131,3 +1136,18 @@ class Conditions(_Base):
 
 
 STREAMS = [Exhaustive(), Random(), Conditions()]
+
+
+def _guard(fn):
+    """An exception inside an instance check is a harness fault (an oracle tripping over an unexpected but legal
+    output container), not the property's words failing: reported as mechanism-level, never as a violation."""
+    def holds(self, case, out):
+        try:
+            return fn(self, case, out)
+        except Exception as e:  # noqa
+            return [Failure('instance-check-crashed', repr(e), literal=False)]
+    return holds
+
+
+for _cls in {_b for _s in STREAMS for _b in type(_s).__mro__ if _b.__module__ == __name__ and 'holds' in _b.__dict__}:
+    _cls.holds = _guard(_cls.holds)
